@@ -217,12 +217,24 @@ fn run_parser<'a, R: lexpr::parse::Read<'a>>(mut p: Parser<R>, api: &str, out: &
         for _ in 0..400 {
             let r = if api == "valuec" { p.next_value() } else { p.next_datum().map(|o| o.map(Value::from)) };
             match r {
-                Ok(Some(_)) => { oks += 1; trace.push('o'); }
+                Ok(Some(v)) => {
+                    oks += 1; trace.push('o');
+                    // C17: whatever a call returns holds well-formed text (re-validated from the bytes)
+                    fn wf(v: &Value) -> bool {
+                        match v {
+                            Value::Symbol(s) | Value::Keyword(s) | Value::String(s) => std::str::from_utf8(s.as_bytes()).is_ok() && s.chars().all(|c| (c as u32) <= 0x10FFFF),
+                            Value::Cons(c) => wf(c.car()) && wf(c.cdr()),
+                            Value::Vector(es) => es.iter().all(wf),
+                            _ => true,
+                        }
+                    }
+                    if !wf(&v) { trace.push('!'); }
+                }
                 Ok(None) => { ended = true; break; }
                 Err(e) => { errs += 1; trace.push('e'); last = e.to_string(); }
             }
         }
-        write!(out, "{{\"oks\":{},\"errs\":{},\"ended\":{},\"trace\":\"{}\",\"last_err\":\"{}\"}}", oks, errs, ended, trace, last).unwrap();
+        write!(out, "{{\"oks\":{},\"errs\":{},\"ended\":{},\"trace\":\"{}\",\"last_err\":\"{}\"}}", oks, errs, ended, trace, last.replace('"', "'")).unwrap();
         return;
     }
     out.push_str("{\"items\":[");
@@ -266,6 +278,22 @@ impl std::io::Write for ShortSink {
         if let Some(f) = self.fail_at {
             if self.buf.len() < f { n = n.min(f - self.buf.len()); }
         }
+        self.buf.extend_from_slice(&data[..n]);
+        Ok(n)
+    }
+    fn flush(&mut self) -> std::io::Result<()> { Ok(()) }
+}
+
+/// a sink with a transient fault: the write that would start at offset `fail_at` fails once, later writes succeed again
+struct OnceSink { buf: Vec<u8>, fail_at: usize, fired: bool }
+impl std::io::Write for OnceSink {
+    fn write(&mut self, data: &[u8]) -> std::io::Result<usize> {
+        if !self.fired && self.buf.len() == self.fail_at {
+            self.fired = true;
+            return Err(std::io::Error::new(std::io::ErrorKind::TimedOut, "injected once"));
+        }
+        let mut n = data.len();
+        if !self.fired && self.buf.len() < self.fail_at { n = n.min(self.fail_at - self.buf.len()); }
         self.buf.extend_from_slice(&data[..n]);
         Ok(n)
     }
@@ -344,6 +372,16 @@ fn print_check(out: &mut String) {
                 let r = lexpr::to_writer_custom(&mut sink, &v, opts);
                 if r.is_ok() || sink.buf != full[..p] {
                     bad.push(format!("failure at {}: ok={} delivered {:?} of {:?} for {:?} under {}", p, r.is_ok(),
+                        String::from_utf8_lossy(&sink.buf), String::from_utf8_lossy(&full), v, name));
+                }
+            }
+            for p in 0..full.len() {
+                // transient fault: the call must fail and whatever reached the sink must be a prefix of the text
+                cases += 1;
+                let mut sink = OnceSink { buf: Vec::new(), fail_at: p, fired: false };
+                let r = lexpr::to_writer_custom(&mut sink, &v, opts);
+                if r.is_ok() || !full.starts_with(&sink.buf) {
+                    bad.push(format!("one-shot failure at {}: ok={} sink holds {:?}, not a prefix of {:?} for {:?} under {}", p, r.is_ok(),
                         String::from_utf8_lossy(&sink.buf), String::from_utf8_lossy(&full), v, name));
                 }
             }
@@ -521,6 +559,51 @@ fn num_check(out: &mut String) {
             let want = v.as_bool() == Some(b);
             if (*v == b) != want || (b == *v) != want { bad.push(format!("{} == {} is {} / {}, as_bool() is {:?}", v, b, *v == b, b == *v, v.as_bool())); }
         }
+    }
+    write!(out, "{{\"cases\":{},\"bad\":[", cases).unwrap();
+    for (i, b) in bad.iter().take(5).enumerate() {
+        if i > 0 { out.push(','); }
+        jstr(out, b.as_bytes());
+    }
+    out.push_str("]}");
+}
+
+/// C01 / C10: every entry point of a family reads with the option set its name promises
+fn entry_check(out: &mut String) {
+    use lexpr::parse::Options;
+    let texts = ["#:key", "(a #:kebab-keyword)", "foo", "(1 2 . 3)", "#(a \"s\" #\\x)", "[a b]", "nil", "(nil t)", "#nil", "1e21", "-0.0", "\"a\\x41;\"",
+        "[a ?b :k \"s\\101\"]", ":k", "k:", "?a", "#%app", "(a . [b])", "'x", "a b", "(a", ")", "#u8(1 2)", "\"\\u00e9\""];
+    let mut bad: Vec<String> = Vec::new();
+    let mut cases = 0usize;
+    fn show(r: Result<Value, lexpr::parse::Error>) -> String { match r { Ok(v) => format!("ok {:?}", v), Err(e) => format!("err {}", e) } }
+    for t in texts {
+        let want_d = show(lexpr::from_str_custom(t, Options::default()));
+        let want_e = show(lexpr::from_str_custom(t, Options::elisp()));
+        let got_default: Vec<(&str, String)> = vec![
+            ("from_str", show(lexpr::from_str(t))), ("from_slice", show(lexpr::from_slice(t.as_bytes()))), ("from_reader", show(lexpr::from_reader(t.as_bytes()))),
+            ("FromStr", show(t.parse::<Value>())),
+            ("from_slice_custom(default)", show(lexpr::from_slice_custom(t.as_bytes(), Options::default()))),
+            ("from_reader_custom(default)", show(lexpr::from_reader_custom(t.as_bytes(), Options::default()))),
+            ("Parser::from_str", { let mut p = Parser::from_str(t); show(p.expect_value().and_then(|v| p.expect_end().map(|_| v))) }),
+            ("Parser::from_slice", { let mut p = Parser::from_slice(t.as_bytes()); show(p.expect_value().and_then(|v| p.expect_end().map(|_| v))) }),
+            ("Parser::from_reader", { let mut p = Parser::from_reader(t.as_bytes()); show(p.expect_value().and_then(|v| p.expect_end().map(|_| v))) }),
+            ("Parser::from_str_custom(default)", { let mut p = Parser::from_str_custom(t, Options::default()); show(p.expect_value().and_then(|v| p.expect_end().map(|_| v))) }),
+            ("datum::from_str", show(lexpr::datum::from_str(t).map(Value::from))), ("datum::from_slice", show(lexpr::datum::from_slice(t.as_bytes()).map(Value::from))),
+            ("datum::from_reader", show(lexpr::datum::from_reader(t.as_bytes()).map(Value::from))),
+            ("datum::from_str_custom(default)", show(lexpr::datum::from_str_custom(t, Options::default()).map(Value::from))),
+        ];
+        let got_elisp: Vec<(&str, String)> = vec![
+            ("from_str_elisp", show(lexpr::parse::from_str_elisp(t))), ("from_slice_elisp", show(lexpr::parse::from_slice_elisp(t.as_bytes()))),
+            ("from_reader_elisp", show(lexpr::parse::from_reader_elisp(t.as_bytes()))),
+            ("datum::from_str_elisp", show(lexpr::datum::from_str_elisp(t).map(Value::from))), ("datum::from_slice_elisp", show(lexpr::datum::from_slice_elisp(t.as_bytes()).map(Value::from))),
+            ("datum::from_reader_elisp", show(lexpr::datum::from_reader_elisp(t.as_bytes()).map(Value::from))),
+            ("from_slice_custom(elisp)", show(lexpr::from_slice_custom(t.as_bytes(), Options::elisp()))),
+        ];
+        // error positions may differ between sources by design of the reader kinds: compare the part before " at line"
+        let norm = |s: &str| s.split(" at line ").next().unwrap_or("").to_string();
+        for (name, g) in got_default { cases += 1; if norm(&g) != norm(&want_d) { bad.push(format!("{} reads {:?} as {}, from_str_custom(default options) as {}", name, t, g, want_d)); } }
+        for (name, g) in got_elisp { cases += 1; if norm(&g) != norm(&want_e) { bad.push(format!("{} reads {:?} as {}, from_str_custom(elisp options) as {}", name, t, g, want_e)); } }
+        if bad.len() > 5 { break; }
     }
     write!(out, "{{\"cases\":{},\"bad\":[", cases).unwrap();
     for (i, b) in bad.iter().take(5).enumerate() {
@@ -739,6 +822,7 @@ fn main() {
         "alistcheck" => alist_check(&mut out),
         "conscheck" => cons_check(&mut out),
         "numcheck" => num_check(&mut out),
+        "entrycheck" => entry_check(&mut out),
         "stack" => {
             // stack <op> <n> [dotted]: run one list-walking operation on an n-element list on a 2 MiB thread
             let op = a[2].clone();
